@@ -58,3 +58,44 @@ class RunUnknownMode:
 
     def spec(case, self_, output_mode="sql", group_by_type=False, json_dump=False):
         raise SimpleDDLParserException("unknown mode")
+
+
+# ------------------------------------------------------------------ the statement parse: where silent decides
+from contracts.lib import opaque  # noqa: E402
+
+
+class YaccStub:
+    """stand-in for the PLY parser object (A-PLY-LR): parse() returns a result or raises, as chosen by the case"""
+
+    def parse(self, statement, lexer=None):
+        if self.outcome == "library-error":
+            raise DDLParserError("Unknown symbol")
+        if self.outcome == "nothing":
+            return None
+        return self.result
+
+
+@contract
+class ParseStatement:
+    """one statement: a result is appended to the results in order; nothing is appended when the statement yields nothing;
+    an error raised by the lexer / parser callbacks yields no entity and no exception when silent, and propagates
+    (as the library's exception) when not silent; the statement is parsed with the object's own parser and lexer"""
+    fn = "parser.Parser.parse_statement"
+    props = ["C16", "C03", "C15"]
+    raises = ("DDLParserError",)
+    abstract_callees = True
+    cases = {"entity": dict(outcome="entity"), "nothing": dict(outcome="nothing"), "library-error": dict(outcome="library-error")}
+
+    def build(G, case):
+        stub = G.obj("YaccStub", outcome=case["outcome"], result={"table_name": G.str("t"), "columns": []})
+        p = G.parser(lexer=lexer_flags(G), silent=G.bool("silent"), statement=G.str("statement", None, "CREATE TABLE t (a int)"),
+                     tables=G.oseq("earlier", elem=lambda g, n: {"table_name": g.str(n)}), yacc=stub)
+        return dict(args=[p])
+
+    def spec(case, self_):
+        if self_.statement.endswith(";"):
+            self_.statement = self_.statement[:-1]      # the terminator is not part of the statement text
+        if case["outcome"] == "entity":
+            self_.tables.append(self_.yacc.result)
+        elif case["outcome"] == "library-error" and not self_.silent:
+            raise DDLParserError("Unknown symbol")
